@@ -20,16 +20,16 @@ uint64_t num_cases(bool thorough) { return thorough ? 6000 : 448; }
 void final_report() {}
 
 // ---------------------------------------------------------------- inputs with rare, high coupon values
-struct HiItem { uint8_t value; uint64_t x; };
+struct HiItem { uint8_t value; uint64_t x; uint32_t coupon; };
 static const std::vector<HiItem>& hi_pool() {
   static std::vector<HiItem> pool;
   static bool built = false;
   if (!built) {
     built = true;
-    for (uint64_t i = 0; i < (1u << 21); ++i) {
+    for (uint64_t i = 0; i < (1u << 22); ++i) {
       const uint64_t x = i * 0x9e3779b97f4a7c15ULL + 12345;
       const uint32_t c = coupon_of_hash(ref_hash_u64(x, HLL_HASH_SEED));
-      if (cp_value(c) >= 15) pool.push_back(HiItem{static_cast<uint8_t>(cp_value(c)), x});
+      if (cp_value(c) >= 15) pool.push_back(HiItem{static_cast<uint8_t>(cp_value(c)), x, c});
     }
   }
   return pool;
@@ -62,6 +62,7 @@ struct Sk {
   int type; bool full; int order;            // order 0 = A (as generated), 1 = B (chunks permuted), 2 = C (whole stream reversed)
   int prev_cur_min = -1;
   std::vector<uint32_t> prev_aux;
+  std::vector<uint8_t> prev_aux_vals;
   bool seen_list = false, seen_set = false;
   double est = 0, comp = 0;
 };
@@ -177,6 +178,8 @@ static void checkpoint(Case& C, Rng& r, bool final_cp) {
       if (nat.mode == M_HLL && !K.full && K.seen_list && !K.seen_set && m.lg_k < 8) { count("lgk_lt8_list_then_hll"); K.seen_list = false; }
       if (nat.mode == M_HLL && !K.full && K.seen_set) { count("set_then_hll"); K.seen_set = false; K.seen_list = false; }
       if (nat.mode == M_HLL && K.full) count("full_size_hll_checkpoints");
+      if (nat.mode == M_HLL && !nat.regs.empty() && *std::max_element(m.regs.begin(), m.regs.end()) >= 32) count(std::string("register_ge32_checked_") + tn);
+      if (nat.coupon_mode() && !nat.coupons.empty() && cp_value(nat.coupons.back()) >= 32) count("coupon_value_ge32_checked_in_coupon_mode");
       if (nat.mode == M_HLL && K.full && !m.nonempty) count("full_size_empty_hll");
       mode_sig = mix64(mode_sig, static_cast<uint64_t>(nat.mode) * 4 + static_cast<uint64_t>(K.type));
       if (nat.mode == M_HLL && K.type == 0) {
@@ -197,7 +200,16 @@ static void checkpoint(Case& C, Rng& r, bool final_cp) {
           if (!both.empty()) count("hll4_shift_with_surviving_aux");
           if (both.size() < K.prev_aux.size()) count("hll4_shift_aux_demoted");
         }
+        // an exception raised to a larger exception while cur_min >= 1 (no shift in between)
+        if (K.prev_cur_min >= 1 && static_cast<int>(nat.cur_min) == K.prev_cur_min) {
+          for (size_t a = 0; a < K.prev_aux.size(); ++a) {
+            auto it = std::lower_bound(nat.aux_slots.begin(), nat.aux_slots.end(), K.prev_aux[a]);
+            if (it != nat.aux_slots.end() && *it == K.prev_aux[a] && nat.regs[*it] > K.prev_aux_vals[a]) { count("hll4_exception_raised_to_larger_exception_curmin_ge1"); break; }
+          }
+        }
         K.prev_cur_min = static_cast<int>(nat.cur_min);
+        K.prev_aux_vals.clear();
+        for (uint32_t sl : nat.aux_slots) K.prev_aux_vals.push_back(nat.regs[sl]);
         K.prev_aux = nat.aux_slots;
         mode_sig = mix64(mode_sig, nat.cur_min * 1000003ULL + nat.aux_count);
       }
@@ -324,7 +336,27 @@ void run_case(uint64_t idx, Rng& r) {
   }
   std::vector<uint64_t> lvl_keys;
   if (levels) {
-    lvl_keys = level_stream(r, lg_k, static_cast<unsigned>(1 + r.below(3)), static_cast<unsigned>(r.below(4)));
+    unsigned nlevels = static_cast<unsigned>(1 + r.below(3));
+    // optionally: one slot that already holds an exception (value v1 >= cur_min + 15) is raised to a larger exception v2
+    const HiItem* e1 = nullptr; const HiItem* e2 = nullptr;
+    if (r.chance(0.6)) {
+      const auto& pool = hi_pool();
+      std::vector<std::pair<const HiItem*, const HiItem*>> cand;
+      for (size_t a = 0; a < pool.size(); ++a) for (size_t b = 0; b < pool.size(); ++b)
+        if (pool[a].value >= 16 && pool[b].value > pool[a].value && cp_slot(pool[a].coupon, lg_k) == cp_slot(pool[b].coupon, lg_k)) cand.emplace_back(&pool[a], &pool[b]);
+      if (!cand.empty()) {
+        auto pr = cand[r.below(cand.size())];
+        e1 = pr.first; e2 = pr.second;
+        nlevels = std::min<unsigned>(nlevels, static_cast<unsigned>(e1->value) - 15u);
+      }
+    }
+    lvl_keys = level_stream(r, lg_k, nlevels, static_cast<unsigned>(r.below(4)));
+    if (e1) {
+      if (r.coin()) { lvl_keys.push_back(e1->x); lvl_keys.push_back(e2->x); lvl_keys.push_back(e1->x); lvl_keys.push_back(e2->x); }
+      else { lvl_keys.insert(lvl_keys.begin(), e1->x); lvl_keys.push_back(e2->x); lvl_keys.push_back(e2->x); lvl_keys.push_back(e1->x); }
+      count("exception_then_larger_exception_planted");
+    }
+    if (r.chance(0.3) && !rare_keys().empty()) { lvl_keys.push_back(rare_keys()[r.below(rare_keys().size())].x); count("rare_value_ge32_inputs_planted"); }
     for (uint64_t d = r.below(6); d > 0 && lvl_keys.size() > 1; --d) {       // re-presentations of earlier inputs
       const size_t a = r.below(lvl_keys.size() - 1);
       const size_t b = a + 1 + r.below(lvl_keys.size() - a);
@@ -373,6 +405,17 @@ void run_case(uint64_t idx, Rng& r) {
     }
     std::sort(C.inject.begin(), C.inject.end());
   }
+  if (!levels && n >= 1 && r.chance(0.15) && !rare_keys().empty()) {
+    // rare inputs with coupon value >= 32 (kxq1, 6th bit of the 6-bit packing, HLL_4 exception for any cur_min)
+    for (uint64_t i = 1 + r.below(2); i > 0; --i) {
+      const uint64_t pos = r.below(n);
+      if (!used.insert(pos).second) continue;
+      C.inject.emplace_back(pos, rare_keys()[r.below(rare_keys().size())].x);
+      count("rare_value_ge32_inputs_planted");
+    }
+    std::sort(C.inject.begin(), C.inject.end());
+  }
+  if (rare_keys().size() < 2) count("rare_keys_failed_verification");
   if (do_inject) {
     const auto& pool = hi_pool();
     const uint64_t cnt = 1 + r.below(6);
